@@ -13,6 +13,8 @@ import PqlModel.Props.C05WriteIRAll
 import PqlModel.Props.C05WriteIRStmt
 import PqlModel.Props.C07Defaults
 import PqlModel.Props.C02SplitImperative
+import PqlModel.Props.C06Placeholders
+import PqlModel.Props.C02ProgramNames
 #print axioms Pql.C02.C02_canAttachSort_table
 #print axioms Pql.C02.C02_top_eq_sort_take
 #print axioms Pql.C02.C02_spec_top
@@ -82,3 +84,7 @@ import PqlModel.Props.C02SplitImperative
 #print axioms Pql.SplitImp.C02_refines_needs_valid
 #print axioms Pql.SplitImp.C02_refines_needs_source
 #print axioms Pql.SplitImp.C02_refines_needs_as_name
+#print axioms Pql.E2EMore.C02_compile_named
+#print axioms Pql.E2EMore.C02_end_to_end_program_names
+#print axioms Pql.E2EMore.C02_end_to_end_program_names_bytes
+#print axioms Pql.E2EMore.C02_end_to_end_program_names_run
